@@ -1112,6 +1112,9 @@ func c03sharedHistory(seed uint64, n int) (fails []c03shFail) {
 	sh := xl.STCellFormulaTypeShared
 	const c0, c1, rmax = 4, 8, 7
 	exp := map[c03pos]string{}
+	// dep[p]: the cell carries a formula element of the shared type with a shared index and no reference range of
+	// its own (a dependent), whether or not a master with that index still exists — the state the code keeps
+	dep := map[c03pos]bool{}
 	groups := map[int]*c03shGroup{} // by column
 	var hist []string
 	fail := func(sig, what string) {
@@ -1153,18 +1156,28 @@ func c03sharedHistory(seed uint64, n int) (fails []c03shFail) {
 			for rr := ng.r0; rr <= ng.r1; rr++ {
 				exp[c03pos{c, rr}] = ng.text(rr)
 				touched[c03pos{c, rr}] = true
+				dep[c03pos{c, rr}] = rr != ng.r0
 			}
 			groups[c] = ng
 		default:
 			p := c03pos{c, r}
 			touched[p] = true
 			master := g != nil && g.live && r == g.r0
-			dependent := g != nil && g.live && r > g.r0 && r <= g.r1
+			// a plain formula written to a dependent-typed cell only replaces the text of its formula element: the
+			// cell keeps the shared type and index, so GetCellFormula answers from the group (or with "" when the
+			// master is gone) — one root cause, whether the master still exists or not
+			dependent := dep[p]
 			switch k {
 			case 6, 7:
 				desc = fmt.Sprintf("SetCellValue(%s, %d)", c03name(c, r), i)
 				_ = f.SetCellValue("Sheet1", c03name(c, r), i)
 				exp[p] = ""
+				dep[p] = false
+				if master { // removeFormula clears the formula element of every cell with the master's index
+					for rr := g.r0; rr <= g.r1; rr++ {
+						dep[c03pos{c, rr}] = false
+					}
+				}
 			case 8:
 				desc = fmt.Sprintf("SetCellFormula(%s, \"9+%d\")", c03name(c, r), i)
 				_ = f.SetCellFormula("Sheet1", c03name(c, r), fmt.Sprintf("9+%d", i))
@@ -1177,6 +1190,7 @@ func c03sharedHistory(seed uint64, n int) (fails []c03shFail) {
 				desc = fmt.Sprintf("SetCellFormula(%s, \"\")", c03name(c, r))
 				_ = f.SetCellFormula("Sheet1", c03name(c, r), "")
 				exp[p] = ""
+				dep[p] = false
 			}
 			if master {
 				knownSig = "shared:master-overwrite-changes-group"
@@ -1869,6 +1883,7 @@ func runC03(r *Run, rng *Rng, replay string) {
 	cx.exec("shh 1 12") // deterministic: covers both known deviations
 	cx.exec("shh 2 12")
 	cx.exec("shh 3 12")
+	cx.exec("shh 246163 20") // a plain formula on an orphaned dependent (its master was cleared before)
 	for i := 0; i < nSh; i++ {
 		cx.exec(fmt.Sprintf("shh %d %d", rng.U64()%1000000, rng.Range(6, 30)))
 	}
